@@ -175,3 +175,19 @@ def cvc5_check(text, timeout_s=20):
         return 'timeout', timeout_s
     finally:
         os.unlink(path)
+
+
+def _cvc5_job(args):
+    text, timeout_s = args
+    try:
+        return cvc5_check(text, timeout_s)
+    except Exception as e:      # cvc5 missing, temp dir not writable, ...: no opinion
+        return 'error: %r' % (e,), 0.0
+
+
+def cvc5_batch(items, timeout_s=10):
+    """items: [(key, smt2 text)] -> {key: (answer, seconds)}; answers: unsat / sat / unknown / timeout / error..."""
+    if not items or not os.path.exists('/usr/bin/cvc5'):
+        return {k: ('unavailable', 0.0) for k, _ in items}
+    outs = pool().map(_cvc5_job, [(t, timeout_s) for _, t in items], chunksize=1)
+    return {k: o for (k, _), o in zip(items, outs)}
